@@ -1,3 +1,4 @@
+from copy import deepcopy
 import hashlib
 
 
@@ -114,6 +115,9 @@ def default_to_python(default, schema, named_schemas):
                         default[field["name"]], field["type"], named_schemas
                     )
             return converted
+    if isinstance(default, (list, dict)):
+        # Never hand out the schema's own object: the caller may change it
+        return deepcopy(default)
     return default
 
 
